@@ -154,31 +154,31 @@ type State struct {
 	pools map[int][]Value  // pool object id -> free list
 	holes map[string]Value // numeral text -> symbolic value
 
-	panicVal   Value
-	panicSet   bool
-	Status     PathStatus
-	AbortMsg   string
-	Viol       []Violation
-	Fuel       int
-	Depth      int
-	Log        []string          // harness log lines (zzLog)
-	Out        map[string]string // harness outputs
-	Epoch      int
-	W          *Worker
-	AccessLog  *AccessLog
-	Tree       map[int]bool // objects reachable from the parsed function (C05 frame)
-	treeSnap   map[int]string
-	globSnap   map[int]string
-	poisonHits []string
-	violExtra  []*Term
-	outVals    []outVal
-	reApps     []reApp
-	owned      map[int]bool // objects owned through sync.Pool.Get
-	bdom       map[*Term]byteSet
-	twinLeaves []twinLeaf
-	Approx     bool // an over-approximating stub was used on this path
+	panicVal    Value
+	panicSet    bool
+	Status      PathStatus
+	AbortMsg    string
+	Viol        []Violation
+	Fuel        int
+	Depth       int
+	Log         []string          // harness log lines (zzLog)
+	Out         map[string]string // harness outputs
+	Epoch       int
+	W           *Worker
+	AccessLog   *AccessLog
+	Tree        map[int]bool // objects reachable from the parsed function (C05 frame)
+	treeSnap    map[int]string
+	globSnap    map[int]string
+	poisonHits  []string
+	violExtra   []*Term
+	outVals     []outVal
+	reApps      []reApp
+	owned       map[int]bool // objects owned through sync.Pool.Get
+	bdom        map[*Term]byteSet
+	twinLeaves  []twinLeaf
+	Approx      bool // an over-approximating stub was used on this path
 	NumOverflow bool // a json.Number leaf of this document may spell an out-of-range number
-	steps      int
+	steps       int
 }
 
 func (s *State) clone() *State {
